@@ -13,13 +13,9 @@ import (
 
 	"github.com/bitcoin-sv/block-headers-service/config"
 	"github.com/bitcoin-sv/block-headers-service/transports/p2p/addrmgr"
-	"github.com/bitcoin-sv/block-headers-service/transports/p2p/p2psync"
 	"github.com/bitcoin-sv/block-headers-service/transports/p2p/peer"
 	"github.com/rs/zerolog"
 )
-
-// VerifSyncManager exposes the server's sync manager (DESIGN.md §3.6 barrier).
-func (s *server) VerifSyncManager() *p2psync.SyncManager { return s.syncManager }
 
 // VerifPeerBook is a peerState plus the minimal server the three handlers read
 // (shutdown flag, logger, ban duration, address manager).
@@ -58,7 +54,7 @@ func VerifNewPeerBook(banDuration time.Duration, log *zerolog.Logger) *VerifPeer
 func (b *VerifPeerBook) NewPeer(inbound, persistent bool, addr string, conn net.Conn) *VerifPeer {
 	sp := newServerPeer(b.s, persistent, b.s.log)
 	cfg := newPeerConfig(sp)
-	cfg.NewestBlock = nil                    // would need the sync manager
+	cfg.NewestBlock = nil                   // would need the sync manager
 	cfg.Listeners = peer.MessageListeners{} // admission is driven by Add, not by OnVersion
 	if inbound {
 		sp.Peer = peer.NewInboundPeer(cfg)
